@@ -5,3 +5,4 @@ import CobaldVerif.Props.C08
 import CobaldVerif.Props.C17
 import CobaldVerif.Props.C19
 import CobaldVerif.Props.C14
+import CobaldVerif.Props.C04
